@@ -14,6 +14,8 @@ Scenario (dict):
   actions    {callback name: [action per invocation]}  action: "raise" | "close" | "kbint" | None
   user       [(t_ms, "close")]  user thread
   runs       number of consecutive run_forever calls (default 1)
+  app_kw     further keyword arguments of WebSocketApp (header, cookie, subprotocols); header_callable: True makes the
+             header option a function that returns the static lines + "X-Seq: <number of the evaluation>"
   trace      enableTrace(True) with a null handler for the duration of the scenario
   global_reconnect  websocket.setReconnect(x) instead of run_forever(reconnect=x)
   tls        wss:// with the record-buffering fake TLS socket
@@ -157,6 +159,7 @@ class AppNet:
                 sc["_hs"] = True
                 req = bytes(ib)
                 del ib[:]
+                self.sched.ev("request", cid=cid, raw=list(req))
                 key = re.search(rb"Sec-WebSocket-Key: (\S+)", req).group(1)
                 status = sc.get("status", 101)
                 if status == 101:
@@ -392,6 +395,18 @@ def run_app(sc, schedule=None, seed=None, line_preempt=None):
     table = {"cont_message": on_cont_message, "open": on_open, "reconnect": on_reconnect, "message": on_message, "data": on_data, "error": on_error,
              "close": on_close, "ping": on_ping, "pong": on_pong}
     kw = {"on_" + n: table[n] for n in cbs}
+    akw = dict(sc.get("app_kw", {}))
+    if akw.pop("header_callable", None):
+        # a callable header option: evaluated for every opening handshake (X-Seq counts the evaluations)
+        calls = {"n": 0}
+        static = list(akw.pop("header", []))
+
+        def header_fn():
+            calls["n"] += 1
+            sched.ev("header_eval", n=calls["n"])
+            return static + ["X-Seq: %d" % calls["n"]]
+        akw["header"] = header_fn
+    kw.update(akw)
     url = ("wss" if sc.get("tls") else "ws") + "://app.test/x"
     runkw = dict(sc.get("run", {}))
     ext = None
